@@ -26,7 +26,7 @@ META = {
     'functions': ['xfab.symmetry.permutations', 'xfab.symmetry.rotations', 'xfab.symmetry.Umis', 'xfab.tools.form_b_mat'],
     'bounds': {'crystal systems': 'all 7, all pairs of operators', 'U1,U2': 'all proper rotations (unit quaternions)', 'cells': 'all conforming cells for the pairing identity'},
     'outside_claim': ['binary64 rounding of the cached tables beyond the 1e-12 comparison', 'the value of arccos (only its argument and range are checked)'],
-    'stubs': ['ndarray.clip(-1,1) on the cosine array -> identity, with the obligation that every cosine lies in [-1,1]', 'arccos -> Angle window [0,pi]'],
+    'stubs': ['ndarray.clip(-1,1) on the cosine array -> identity, justified by sum-of-squares certificates (identities on the real expressions + two abstract inequalities) that every cosine lies in [-1,1]', 'arccos -> Angle window [0,pi]'],
     'assumptions': ['exact real arithmetic'],
 }
 Q2 = ['pw', 'px', 'py', 'pz']
@@ -178,11 +178,24 @@ def run_unit(u, desc, tier, seed):
         M = C.mdot(U1.T, U2, np.asarray(rot[k], dtype=object).T)
         res.append(cos0[k] - (M[0, 0] + M[1, 1] + M[2, 2] - 1) * Fraction(1, 2))
     u.prove('C12/cs%d/Umis/cos=half(trace-1)' % cs, pre, C.resid_goal(zc, res), replay=lambda m: replay_umis(cs, m, f), detail='for all U1,U2 and every operator', sample=True)
-    # the clipped argument really lies in [-1,1] (so the identity model of clip is exact)
-    qt = 20 if tier == 'quick' else 120
-    for k in range(min(n, 2 if tier == 'quick' else n)):
-        u.prove('C12/cs%d/Umis/cos-in-[-1,1]' % cs, pre, z3.And(zc.cmp0(cos0[k] - 1, '<='), zc.cmp0(cos0[k] + 1, '>=')), replay=None,
-                detail='operator %d: the arccos argument is a cosine' % k, timeout=qt, cvc5_timeout=qt)
+    # the clipped argument really lies in [-1,1] (so the identity model of clip is exact).  The direct 8-variable inequality is
+    # `unknown` for both solvers; it is decided by certificates instead: for M = U1^T.U2.rot[k]^T
+    #   (i)  4(1+tr M) = (1+tr M)^2 + (M21-M12)^2 + (M02-M20)^2 + (M10-M01)^2      (identity, proved on the real expressions)
+    #   (ii) 1 - M_ii^2 = sum of the squares of the other two entries of column i  (identity, proved)
+    #   (iii) abstract: 4T = A^2+B^2+C^2+D^2 => T >= 0 ;  1 - x^2 = y^2+z^2 => x <= 1   (solver, fresh reals)
+    ident = []
+    for k in range(n):
+        M = C.mdot(U1.T, U2, np.asarray(rot[k], dtype=object).T)
+        T = 1 + M[0, 0] + M[1, 1] + M[2, 2]
+        ident.append(4 * T - (T * T + (M[2, 1] - M[1, 2]) ** 2 + (M[0, 2] - M[2, 0]) ** 2 + (M[1, 0] - M[0, 1]) ** 2))
+        for i in range(3):
+            j, l = (i + 1) % 3, (i + 2) % 3
+            ident.append(1 - M[i, i] ** 2 - M[j, i] ** 2 - M[l, i] ** 2)
+    u.prove('C12/cs%d/Umis/cos-in-[-1,1]/certificate-identities' % cs, pre, C.resid_goal(zc, ident), replay=None,
+            detail='sum-of-squares certificates for -1 <= (tr M - 1)/2 <= 1, all %d operators' % n, timeout=60)
+    Tz, Az, Bz, Cz, Dz, xz, yz, wz = z3.Reals('T A B C D x y w')
+    u.prove('C12/cs%d/Umis/cos-in-[-1,1]/abstract-lower' % cs, [4 * Tz == Az * Az + Bz * Bz + Cz * Cz + Dz * Dz], Tz >= 0, replay=None, detail='4T = sum of four squares => T >= 0')
+    u.prove('C12/cs%d/Umis/cos-in-[-1,1]/abstract-upper' % cs, [1 - xz * xz == yz * yz + wz * wz], xz <= 1, replay=None, detail='1 - x^2 = y^2 + z^2 => x <= 1 (each diagonal entry, hence tr M <= 3)')
     # invariances: index maps from the exact group table
     def idx_of(M):
         for k in range(n):
